@@ -8,6 +8,11 @@ Rules (DESIGN.md section 3, C10):
   C10.J  jump operands: every placeholder jump operand is patched on all non-error paths, patches and
          back-edge targets are derived from bytecode.len().
   C10.E  Compiler::compile ends every Ok path with push_instruction(Exit) and emits nothing after it.
+  C10.A  the bytecode vector is append-only during compilation and never inspected as bytes: in the compiler module
+         program.bytecode is only appended to, asked for its length and back-patched in place (C10.J); removals (pop,
+         truncate, ...) and reads of the content (last, get, indexing, ...) are reported.
+  C10.G  global ids and names are registered from the same string and id; every SetGlobalVar/ReadGlobalVar emission
+         takes its id from such code (inline or through a helper).
   C10.S  data section: only push_str/encode_str write program.data; the handle is data.len() read before
          the append; encode_str and decode_str agree on the length prefix type.
 """
@@ -24,7 +29,10 @@ EXPLANATION = (
     "the opcode switch and the loop back-edge, inlining instr_execution helpers, each decode must be must-execute on "
     "non-error paths), the length table Instruction::span (symbolically evaluated) and the disassembler's advance; "
     "all four must agree in byte width. C10.T/J/E/S are who-may-write, pairing and dominance rules on the same "
-    "facts. The rules hold for every program the compiler can emit because they are statements about the emitter's "
+    "facts. C10.A is a who-may-do-what rule on program.bytecode in the compiler module (append / len / back-patch only; no "
+    "removal, no read of the content). C10.G checks each site that registers a global (same string hashed and stored, names keyed "
+    "by the id of the ids entry) and that every SetGlobalVar/ReadGlobalVar emission takes its id from such code, inline or through "
+    "a helper. The rules hold for every program the compiler can emit because they are statements about the emitter's "
     "and decoder's code, not about sampled outputs. Not decided: one-to-one correspondence of global ids and names "
     "(depends on HandleTable being a faithful map, C13), label collisions (C06/C08)."
 )
@@ -61,6 +69,85 @@ def instr_ctor(e):
     return None
 
 
+def _param_ids(f):
+    """hir ids of the parameters of f and of the closures inside it, and of every binding that is not a plain `let x = ..`
+    (pattern bindings get their value from the matched expression, not from let_inits)"""
+    cached = getattr(f, "_param_ids_c10", None)
+    if cached is not None:
+        return cached
+    from cao.facts import pat_bindings
+    out = set()
+    for p_ in f.hir.get("params", []):
+        out |= set(i for i, _n in pat_bindings(p_))
+    for x in hir_walk(f.hir["body"]):
+        if x.get("k") == "closure":
+            for p_ in x.get("params", []):
+                out |= set(i for i, _n in pat_bindings(p_))
+        elif x.get("k") == "match":
+            for a in x["arms"]:
+                out |= set(i for i, _n in pat_bindings(a["pat"]))
+        elif x.get("k") == "let" and x.get("pat") is not None:
+            out |= set(i for i, _n in pat_bindings(x["pat"]))
+    f._param_ids_c10 = out
+    return out
+
+
+def instr_values(f, e, depth=0):
+    """the set of Instruction variants an opcode expression can evaluate to, following single-function locals through
+    their initialisers / assignments and `if`/`match`/block values; None when not determined (a parameter, a call)"""
+    e = hir_strip(e)
+    if e is None or depth > 6:
+        return None
+    k = e.get("k")
+    if k == "cast":
+        return instr_values(f, e["e"], depth + 1)
+    if k == "path":
+        r = e["path"]["res"]
+        if r["k"] == "def" and short(r["path"]).startswith(INSTR + "::"):
+            return {short(r["path"])[len(INSTR) + 2:]}
+        if r["k"] == "local":
+            inits = hu.let_inits(f).get(r["id"], [])
+            if not inits or r["id"] in _param_ids(f):
+                return None     # a parameter also holds whatever the caller passed
+            out = set()
+            for i in inits:
+                v = instr_values(f, i, depth + 1)
+                if v is None:
+                    return None
+                out |= v
+            return out
+        return None
+    if k == "if":
+        if e.get("else") is None:
+            return None
+        a, b = instr_values(f, e["then"], depth + 1), instr_values(f, e["else"], depth + 1)
+        return None if a is None or b is None else a | b
+    if k == "match":
+        out = set()
+        for arm in e["arms"]:
+            v = instr_values(f, arm["body"], depth + 1)
+            if v is None:
+                return None
+            out |= v
+        return out or None
+    if k == "block":
+        if e["block"].get("expr") is None:
+            return None
+        return instr_values(f, e["block"]["expr"], depth + 1)
+    return None
+
+
+def resolved_ctor(f, e):
+    """instr_ctor, with a local that can only hold known variants resolved: one variant -> its name, several ->
+    ('multi', (names..))"""
+    v = instr_ctor(e)
+    if isinstance(v, tuple) and f is not None and f.hir:
+        vals = instr_values(f, e)
+        if vals:
+            return sorted(vals)[0] if len(vals) == 1 else ("multi", tuple(sorted(vals)))
+    return v
+
+
 class Emission:
     def __init__(self, var, fn, ln, raw=False):
         self.var = var
@@ -95,7 +182,7 @@ class EmitScan:
         if not names:
             return None
         if "compiler::Compiler::push_instruction" in names:
-            return ("instr", instr_ctor(e["args"][0]))
+            return ("instr", resolved_ctor(getattr(self, "fn", None), e["args"][0]))
         if "bytecode::write_to_vec" in names:
             if self.is_bytecode(e["args"][1]):
                 t = e["f"]["path"].get("args", ["?"])[0]
@@ -103,7 +190,7 @@ class EmitScan:
             return None
         if any(n.startswith("std::vec::Vec::") and n.endswith("::push") for n in names) and e["k"] == "mcall":
             if self.is_bytecode(e["recv"]):
-                v = instr_ctor(e["args"][0])
+                v = resolved_ctor(getattr(self, "fn", None), e["args"][0])
                 return ("raw", v)
             return None
         if any(n in ("std::vec::Vec::extend_from_slice", "std::vec::Vec::resize", "std::vec::Vec::insert",
@@ -271,7 +358,11 @@ def emitter_tables(F):
     # resolve parameter-valued opcodes (encode_if_then(skip_instr, ..)) from call sites
     emissions = []
     for em in scan.emissions:
-        if isinstance(em.var, tuple):
+        if isinstance(em.var, tuple) and em.var[0] == "multi":
+            # a local that holds one of several known opcodes: one emission per opcode, same operand list
+            for v in em.var[1]:
+                emissions.append((v, em))
+        elif isinstance(em.var, tuple):
             # which parameter index?
             params = [p.get("id") for p in em.fn.hir["params"]]
             try:
@@ -733,10 +824,127 @@ def rule_j(F):
          every non-error path after the placeholder (structurally: it follows it in the same statement list, or in the
          enclosing function after the closure containing the placeholder was passed to encode_if_then)."""
     res = []
+    helpers = jump_helpers(F)
     for f in compiler_fns(F):
-        res.extend(jump_fn(F, f))
+        res.extend(jump_fn(F, f, helpers))
     res.extend(callback_always_invoked(F))
     return res
+
+
+PATCH_WRITES = ("std::ptr::write_unaligned", "core::ptr::write_unaligned", "std::ptr::write", "core::ptr::write")
+
+
+def is_const_placeholder(e):
+    """an integer literal or a named constant: a value fixed at compile time (so not a jump target)"""
+    e = hu.strip_casts(e)
+    if e is None:
+        return False
+    if hu.is_int_lit(e):
+        return True
+    return e.get("k") == "path" and e["path"]["res"].get("k") == "def" and "Const" in (e["path"]["res"].get("def_kind") or "")
+
+
+def placeholder_name(e):
+    e = hu.strip_casts(e)
+    if hu.is_int_lit(e):
+        return hu.int_lit(e)
+    return short(e["path"]["res"].get("path", "?")).rsplit("::", 1)[-1]
+
+
+def _len_locals(f, reserve=None):
+    """locals assigned from `<..>.program.bytecode.len()` -> line of that statement (None: only initialised with an
+    integer literal so far); with `reserve`, a local assigned the result of a reserve helper counts the same (the helper
+    returns the length it read right before it wrote the placeholder)"""
+    def from_len(e):
+        if hu.is_bytecode_len(e):
+            return True
+        if reserve:
+            c = hu.strip_casts(e)
+            return c is not None and c.get("k") in ("call", "mcall") and any(n in reserve for n in hir_callee(c))
+        return False
+    len_locals = {}
+    for x in hir_walk(f.hir["body"]):
+        if x.get("k") == "block":
+            for st in x["block"]["stmts"]:
+                if st["k"] == "let" and st.get("init") is not None and st["pat"].get("k") == "bind":
+                    if from_len(st["init"]):
+                        len_locals[st["pat"]["id"]] = st["ln"]
+                    elif hu.is_int_lit(st["init"]):
+                        len_locals.setdefault(st["pat"]["id"], None)
+        if x.get("k") == "assign":
+            lid = hir_local_id(x["l"])
+            if lid is not None and from_len(x["r"]):
+                len_locals[lid] = x["ln"]
+    return len_locals
+
+
+def value_is_current_len(f, e, emitting_lines=()):
+    """`e` is bytecode.len() as of the point of use: the call itself, or a local assigned once from bytecode.len() with
+    nothing emitted between that assignment and the use (emitting_lines: lines of emission events of f)"""
+    if hu.is_bytecode_len(e):
+        return True
+    c = hu.strip_casts(e)
+    lid = hir_local_id(c) if c is not None else None
+    if lid is None:
+        return False
+    inits = hu.let_inits(f).get(lid, [])
+    if len(inits) != 1 or not hu.is_bytecode_len(inits[0]):
+        return False
+    lo = _len_locals(f).get(lid)
+    hi = c.get("ln")
+    return lo is not None and hi is not None and lo <= hi and not any(lo <= ln <= hi for ln in emitting_lines)
+
+
+def _call_args(x):
+    return ([x["recv"]] if x["k"] == "mcall" else []) + list(x["args"])
+
+
+def jump_helpers(F):
+    """Private helpers that stand for one half of the placeholder/patch pair:
+      reserve  a method whose only effect on the bytecode is one write_to_vec of a value that is a parameter or a constant,
+               and that returns bytecode.len() read before that write with nothing emitted in between
+               (`let i = len(); write(placeholder); i`): a call `x = reserve(K)` is `x = len(); write(K)`;
+      patch    a method whose only effect on the bytecode is one raw write `*(as_mut_ptr().add(p)) = bytecode.len()`
+               at an index that is its parameter p: a call `patch(x)` is that write at index x."""
+    scan = EmitScan(F, {})
+    reserve, patch = {}, {}
+    for g in compiler_fns(F):
+        writes, patches, other = [], [], 0
+        for x in hir_walk(g.hir["body"]):
+            if x.get("k") not in ("call", "mcall"):
+                continue
+            names = hir_callee(x)
+            if "bytecode::write_to_vec" in names and scan.is_bytecode(x["args"][1]):
+                writes.append(x)
+            elif any(n in PATCH_WRITES for n in names):
+                patches.append(x)
+            elif x.get("k") == "call" and hir_local_id(x["f"]) is not None:
+                other += 1          # a callback is invoked
+            elif any(n.startswith("compiler::Compiler::") and n != g.short for n in names) or \
+                    (x["k"] == "mcall" and scan.is_bytecode(x["recv"]) and x["name"] not in ("len", "as_mut_ptr", "is_empty")):
+                other += 1
+        params = [p_.get("id") for p_ in g.hir["params"]]
+        if len(writes) == 1 and not patches and not other:
+            w = writes[0]
+            val = hu.strip_casts(w["args"][0])
+            pidx = params.index(hir_local_id(val)) if hir_local_id(val) in params else None
+            if pidx is None and not is_const_placeholder(val):
+                continue
+            ll = _len_locals(g)
+            rets = _returned_exprs(g)
+            ids = [hir_local_id(hu.strip_casts(r_)) for r_ in rets]
+            if rets and all(i is not None and ll.get(i) is not None and ll[i] <= w["ln"] for i in ids) and len(set(ids)) == 1:
+                reserve[g.short] = {"param": pidx, "value": None if pidx is not None else val,
+                                    "ty": w["f"]["path"].get("args", ["?"])[0], "fn": g}
+        elif len(patches) == 1 and not writes and not other:
+            pw = patches[0]
+            if len(pw["args"]) != 2:
+                continue
+            idx = hu.patch_index_local(g, pw["args"][0])
+            if idx is not None and idx in params:
+                patch[g.short] = {"param": params.index(idx), "val_ok": value_is_current_len(g, pw["args"][1]),
+                                  "ty": (pw["f"]["path"].get("args") or ["?"])[0], "fn": g, "node": pw}
+    return {"reserve": reserve, "patch": patch}
 
 
 def callback_always_invoked(F):
@@ -770,10 +978,12 @@ def arm_labels(f):
     return out
 
 
-def jump_fn(F, f):
+def jump_fn(F, f, helpers=None):
     res = []
     scan = EmitScan(F, {})
     labels = arm_labels(f)
+    helpers = helpers or {"reserve": {}, "patch": {}}
+    reserve, patchers = helpers["reserve"], helpers["patch"]
 
     def fname(node):
         lab = labels.get(id(node))
@@ -784,43 +994,56 @@ def jump_fn(F, f):
         if x.get("k") in ("call", "mcall"):
             names = hir_callee(x)
             if "compiler::Compiler::push_instruction" in names:
-                events.append(("instr", x, instr_ctor(x["args"][0])))
+                events.append(("instr", x, resolved_ctor(f, x["args"][0])))
             elif "bytecode::write_to_vec" in names and scan.is_bytecode(x["args"][1]):
                 events.append(("operand", x, x["f"]["path"].get("args", ["?"])[0]))
-            elif any(n in ("std::ptr::write_unaligned", "core::ptr::write_unaligned", "std::ptr::write", "core::ptr::write") for n in names):
+            elif any(n in PATCH_WRITES for n in names):
                 events.append(("patch", x, None))
+            elif any(n in reserve for n in names):
+                events.append(("operand", x, next(reserve[n] for n in names if n in reserve)["ty"]))
+            elif any(n in patchers for n in names):
+                events.append(("patch", x, next(patchers[n] for n in names if n in patchers)))
             elif "compiler::Compiler::encode_if_then" in names:
                 events.append(("if_then", x, None))
         elif x.get("k") == "let" or x.get("k") == "assign":
             pass
     # assignments of locals from bytecode.len(): collect local ids defined as `<..>.program.bytecode.len()` (maybe cast)
-    len_locals = {}
-    for x in hir_walk(f.hir["body"]):
-        if x.get("k") == "block":
-            for st in x["block"]["stmts"]:
-                if st["k"] == "let" and st.get("init") is not None and st["pat"].get("k") == "bind":
-                    if hu.is_bytecode_len(st["init"]):
-                        len_locals[st["pat"]["id"]] = st["ln"]
-                    elif hu.is_int_lit(st["init"]):
-                        len_locals.setdefault(st["pat"]["id"], None)
-        if x.get("k") == "assign":
-            lid = hir_local_id(x["l"])
-            if lid is not None and hu.is_bytecode_len(x["r"]):
-                len_locals[lid] = x["ln"]
+    len_locals = _len_locals(f, reserve)
+
+    def written_value(op):
+        """the value expression an operand event writes (for a reserve helper call: the placeholder it is given/holds)"""
+        for n in hir_callee(op):
+            if n in reserve:
+                h = reserve[n]
+                if h["param"] is None:
+                    return hir_strip(h["value"])
+                a = _call_args(op)
+                return hir_strip(a[h["param"]]) if h["param"] < len(a) else None
+        return hir_strip(op["args"][0])
     placeholders = []
     patches = []
     i = 0
     while i < len(events):
         kind, x, v = events[i]
-        if kind == "instr" and (v in JUMPS or (isinstance(v, tuple))):
+        if isinstance(v, tuple) and v[0] == "multi":
+            # a local holding one of several known opcodes: a jump only if one of them is
+            js = [n for n in v[1] if n in JUMPS]
+            if js and len(js) != len(v[1]):
+                res.append(undecided("C10.J", "C10/J/%s/%s/maybe-jump" % (fname(x), "+".join(v[1])), f.loc(x["ln"]),
+                                     "the opcode is a jump only on some paths"))
+            v = "+".join(v[1]) if js else None
+            is_jump = bool(js)
+        else:
+            is_jump = v in JUMPS or isinstance(v, tuple)
+        if kind == "instr" and is_jump:
             # next operand event must be the i32
             if i + 1 < len(events) and events[i + 1][0] == "operand":
                 op = events[i + 1][1]
-                val = hir_strip(op["args"][0])
+                val = written_value(op)
                 vname = v if isinstance(v, str) else "param:" + v[2]
-                if hu.is_int_lit(val):
-                    placeholders.append((vname, op, hu.int_lit(val)))
-                elif hu.derives_from_len(val, len_locals):
+                if val is not None and is_const_placeholder(val):
+                    placeholders.append((vname, op, placeholder_name(val)))
+                elif val is not None and hu.derives_from_len(val, len_locals):
                     res.append(ok("C10.J", "C10/J/%s/%s/target-from-len@%s" % (fname(op), vname, hu.local_name(val) or "expr"),
                                   f.loc(op["ln"]), "jump operand derives from bytecode.len()"))
                 else:
@@ -829,16 +1052,24 @@ def jump_fn(F, f):
             else:
                 res.append(bad("C10.J", "C10/J/%s/%s/no-operand" % (fname(x), v), f.loc(x["ln"]), "jump opcode without i32 operand"))
         if kind == "patch":
-            patches.append(x)
+            patches.append((x, events[i][2]))
         i += 1
     # match placeholders with patches
     good_patches = []
-    for p in patches:
+    for p, via in patches:
+        if via is not None:
+            # call of a patch helper: the write happens at the index passed for its parameter
+            a = _call_args(p)
+            idx = hir_local_id(hu.strip_casts(a[via["param"]])) if via["param"] < len(a) else None
+            good_patches.append((p, via["val_ok"], idx, via["ty"]))
+            continue
+        if f.short in patchers and patchers[f.short]["node"] is p:
+            continue        # the body of a patch helper: its call sites are decided instead
         # write_unaligned(ptr, value): value must be bytecode.len() (cast); ptr must derive from as_mut_ptr().add(idx) with idx in len_locals
         args = p["args"]
         if len(args) != 2:
             continue
-        val_ok = hu.is_bytecode_len(args[1])
+        val_ok = value_is_current_len(f, args[1], [e_[1].get("ln") for e_ in events if e_[0] in ("instr", "operand", "if_then")])
         idx = hu.patch_index_local(f, args[0])
         ty = (p["f"]["path"].get("args") or ["?"])[0]
         good_patches.append((p, val_ok, idx, ty))
@@ -958,9 +1189,11 @@ def rule_g(F):
     (the dotted path of a property read) names ids that no lookup can reach."""
     res = []
     n = 0
+    reg = {}
     for f in F.fns:
         if not f.hir or f.is_closure or not f.path.startswith("compiler::"):
             continue
+        before_len = len(res)
         inits = hu.let_inits(f)
         name_sites = []
         id_sites = []
@@ -1033,8 +1266,133 @@ def rule_g(F):
             else:
                 res.append(bad("C10.G", key2, loc, "%s keys variables.names by something other than the id that the variables.ids entry "
                                "returned: ids and names no longer correspond" % fname))
-    if n < 2:
+        fres = res[before_len:]
+        reg[f.short] = {"ok": bool(fres) and all(r_["status"] == "ok" for r_ in fres), "id_sites": id_sites, "fn": f}
+    if n < 1:
         raise AnchorMissing("sites filling variables.names (found %d)" % n)
+    res.extend(global_emission_sites(F, reg))
+    return res
+
+
+GLOBAL_OPS = ("SetGlobalVar", "ReadGlobalVar")
+
+
+def _unwrap_value(e):
+    """strip what does not change which id an expression denotes: `*`, `&`, casts, `?`, Ok(..)/Some(..)"""
+    while True:
+        e = hu.strip_all(e)
+        if e is None:
+            return None
+        if e.get("k") == "match" and (e.get("source") or "").startswith("TryDesugar"):
+            sc = hu.strip_all(e["scrut"])
+            if sc is not None and sc.get("k") == "call" and sc["args"]:
+                e = sc["args"][0]
+                continue
+            return e
+        if e.get("k") == "call" and len(e["args"]) == 1:
+            fpath = hir_strip(e["f"])
+            r = fpath["path"]["res"] if fpath.get("k") == "path" else {}
+            nm = short(r.get("path", "") or "") + " " + short(r.get("ctor_of", "") or "")
+            if r.get("k") == "def" and any(nm.strip().endswith(x) or (x + " ") in nm for x in ("Result::Ok", "Option::Some")):
+                e = e["args"][0]
+                continue
+        return e
+
+
+def _id_origin(f, e, depth=0):
+    """follow single-assignment locals from an id operand back to the expression that produced the id"""
+    e = _unwrap_value(e)
+    if e is None or depth > 8:
+        return None
+    lid = hir_local_id(e)
+    if lid is not None:
+        ins = hu.let_inits(f).get(lid, [])
+        if len(ins) == 1:
+            return _id_origin(f, ins[0], depth + 1)
+        return None
+    return e
+
+
+def _returned_exprs(f):
+    out = []
+    body = hir_strip(f.hir["body"])
+    if body.get("k") == "block":
+        if body["block"].get("expr") is not None:
+            out.append(body["block"]["expr"])
+    else:
+        out.append(body)
+    for x in hir_walk(f.hir["body"]):
+        if x.get("k") == "ret" and x.get("e") is not None and not hu.is_error_ret(x):
+            out.append(x["e"])
+    return out
+
+
+def _registers_name(F, f, origin, reg, depth=0):
+    """does the expression `origin` (evaluated in f) yield a global id whose name is registered with it?
+    - inline: it is f's own `variables.ids.entry(..)` chain and every `variables.names` site of f was decided ok;
+    - through a helper: it is a call of a crate function all of whose returned values are such ids."""
+    if origin is None or depth > 4:
+        return False
+    info = reg.get(f.short)
+    if info is not None and any(y is s_ for s_ in info["id_sites"] for y in hir_walk(origin)):
+        return info["ok"]
+    if origin.get("k") in ("call", "mcall"):
+        for nm in hir_callee(origin):
+            g = F.fn(nm, required=False)
+            if g is None or not g.hir or g is f or not g.path.startswith("compiler::"):
+                continue
+            rets = _returned_exprs(g)
+            return bool(rets) and all(_registers_name(F, g, _id_origin(g, r_), reg, depth + 1) for r_ in rets)
+    return False
+
+
+def global_emission_sites(F, reg):
+    """every emission of SetGlobalVar / ReadGlobalVar takes its id operand from code that registers the name"""
+    res = []
+    emissions, _orph, _sm = emitter_tables(F)
+    scan = EmitScan(F, {})
+    sites = {}
+    for v, em in emissions:
+        if v in GLOBAL_OPS:
+            sites.setdefault((em.fn.short, em.ln), (em, set()))[1].add(v)
+    missing = [v for v in GLOBAL_OPS if not any(v in vs for _em, vs in sites.values())]
+    if missing:
+        raise AnchorMissing("emission site of %s" % ", ".join(missing))
+    counts = {}
+    for (_fs, ln), (em, vs) in sorted(sites.items()):
+        f = em.fn
+        events = []
+        for x in hir_walk(f.hir["body"]):
+            if x.get("k") in ("call", "mcall"):
+                names = hir_callee(x)
+                if "compiler::Compiler::push_instruction" in names:
+                    events.append(("instr", x))
+                elif "bytecode::write_to_vec" in names and scan.is_bytecode(x["args"][1]):
+                    events.append(("operand", x))
+        operand = None
+        for i, (kind, x) in enumerate(events):
+            if kind == "instr" and x.get("ln") == ln and (instr_ctor(x["args"][0]) in vs or isinstance(instr_ctor(x["args"][0]), tuple)):
+                if i + 1 < len(events) and events[i + 1][0] == "operand":
+                    operand = events[i + 1][1]
+                break
+        for v in sorted(vs):
+            c = counts.get((f.short, v), 0)
+            counts[(f.short, v)] = c + 1
+            key = "C10/G/%s/%s%s-id-registered-with-its-name" % (f.name, v, "" if c == 0 else "#%d" % c)
+            if operand is None:
+                res.append(undecided("C10.G", key, f.loc(ln), "the id operand written after %s was not found" % v))
+                continue
+            origin = _id_origin(f, operand["args"][0])
+            if _registers_name(F, f, origin, reg):
+                how = "inline" if f.short in reg and any(y is s_ for s_ in reg[f.short]["id_sites"] for y in hir_walk(origin)) else \
+                    "through %s" % ", ".join(n_.rsplit("::", 1)[-1] for n_ in hir_callee(origin)[:1])
+                res.append(ok("C10.G", key, f.loc(operand.get("ln")), "the id written after %s comes from the variables.ids entry that is registered "
+                              "in variables.names under the same string (%s)" % (v, how)))
+            else:
+                res.append(bad("C10.G", key, f.loc(operand.get("ln")),
+                               "%s emits %s with an id that does not come from code that also records the variable's name under that id "
+                               "(variables.ids entry + variables.names entry from the same string): the program then uses a global id "
+                               "the name table does not list, ids and names no longer correspond one to one" % (f.name, v)))
     return res
 
 
@@ -1126,6 +1484,163 @@ def rule_s(F):
     return res
 
 
+# ---------------------------------------------------------------------------------------------------
+# C10.A  the bytecode vector is append-only during compilation and never inspected as bytes
+# ---------------------------------------------------------------------------------------------------
+
+BC_APPEND = {"push", "extend", "extend_from_slice", "append", "reserve", "reserve_exact", "try_reserve", "try_reserve_exact"}
+BC_MEASURE = {"len", "is_empty", "capacity"}
+BC_PATCH = {"as_mut_ptr"}     # the raw in-place write itself is decided by C10.J (placeholder/patch pairing, stray-patch)
+BC_REMOVE = {"pop", "truncate", "remove", "drain", "clear", "split_off", "set_len", "swap_remove", "retain", "retain_mut", "dedup",
+             "dedup_by", "dedup_by_key", "pop_if", "splice", "insert", "shrink_to", "extract_if"}
+BC_INSPECT = {"last", "first", "get", "get_unchecked", "iter", "ends_with", "starts_with", "contains", "as_slice", "as_ptr",
+              "split_last", "split_first", "last_chunk", "first_chunk", "rchunks", "chunks", "windows", "binary_search", "to_vec",
+              "clone", "into_iter", "eq", "ne", "cmp", "partial_cmp", "split_at", "concat", "repeat", "iter_mut", "last_mut",
+              "first_mut", "get_mut", "as_mut_slice", "swap", "fill", "reverse", "rotate_left", "rotate_right", "copy_within"}
+_WRAP = ("drop_temps", "use", "type", "addr_of", "cast")
+
+
+def rule_a(F):
+    """C10.A: a byte of the emitted code is an opcode or a piece of an operand, and which one can only be told by decoding
+    from the front. The compiler therefore never looks at the bytes it has written and never takes any away: in the
+    compiler module `program.bytecode` is only (i) appended to (push / write_to_vec / extend), (ii) asked for its length,
+    (iii) patched in place through as_mut_ptr (the jump back-patch, decided by C10.J). A removal (pop, truncate, drain,
+    clear, ...) or a read of the content (last, first, get, indexing, iteration, comparison) is reported; any other use
+    (the vector handed to an unknown function, moved, written by index) is undecided."""
+    res = []
+    scan = EmitScan(F, {})
+    total_append = 0
+    for f in F.fns:
+        if not f.hir or f.is_closure or not f.path.startswith("compiler::"):
+            continue
+        body = f.hir["body"]
+        inits = hu.let_inits(f)
+        aliases = set()
+        alias_inits = set()
+
+        def is_bc(e):
+            e = hu.strip_all(e)
+            if e is None:
+                return False
+            if e.get("k") == "field":
+                return e["name"] == "bytecode" and scan.is_bytecode(e)
+            lid = hir_local_id(e)
+            return lid is not None and lid in aliases
+        changed = True
+        while changed:
+            changed = False
+            for lid, es in inits.items():
+                if lid not in aliases and any(is_bc(e) for e in es):
+                    aliases.add(lid)
+                    changed = True
+        for lid in aliases:
+            for e in inits[lid]:
+                if is_bc(e):
+                    alias_inits.add(id(e))
+        parent = {}
+        for x in hir_walk(body):
+            for c in hir_children(x):
+                parent[id(c)] = x
+        uses = []
+        for x in hir_walk(body):
+            if x.get("k") == "field" and x["name"] == "bytecode" and scan.is_bytecode(x):
+                uses.append(x)
+            elif x.get("k") == "path" and x["path"]["res"].get("k") == "local" and x["path"]["res"]["id"] in aliases:
+                uses.append(x)
+        if not uses:
+            continue
+        counts = {"append": 0, "measure": 0, "patch": 0}
+        findings = []      # (status, what, node, msg)
+
+        def climb(x):
+            top = x
+            aliased = id(top) in alias_inits
+            p = parent.get(id(top))
+            while p is not None and (p.get("k") in _WRAP or (p.get("k") == "un" and p.get("op") == "Deref")
+                                     or (p.get("k") == "block" and not p["block"]["stmts"] and p["block"].get("expr") is top)):
+                top = p
+                aliased = aliased or id(top) in alias_inits
+                p = parent.get(id(top))
+            return top, p, aliased
+
+        for x in uses:
+            top, c, aliased = climb(x)
+            if aliased:
+                continue            # `let bc = &mut self.program.bytecode`: the uses of `bc` are classified instead
+            k = c.get("k") if c is not None else None
+            if k == "mcall" and c["recv"] is top:
+                m = c["name"]
+                if m in BC_APPEND:
+                    counts["append"] += 1
+                elif m in BC_MEASURE:
+                    counts["measure"] += 1
+                elif m in BC_PATCH:
+                    counts["patch"] += 1
+                elif m in ("resize", "resize_with"):
+                    a = hu.strip_casts(c["args"][0]) if c["args"] else None
+                    grows = a is not None and a.get("k") == "bin" and a["op"] == "Add" and (
+                        (hu.strip_casts(a["l"]) or {}).get("k") == "mcall" and is_bc((hu.strip_casts(a["l"]))["recv"]) and hu.strip_casts(a["l"])["name"] == "len"
+                        or (hu.strip_casts(a["r"]) or {}).get("k") == "mcall" and is_bc((hu.strip_casts(a["r"]))["recv"]) and hu.strip_casts(a["r"])["name"] == "len")
+                    if grows:
+                        counts["append"] += 1
+                    else:
+                        findings.append(("violation", "bytecode.%s" % m, c, "removes"))
+                elif m in BC_REMOVE:
+                    findings.append(("violation", "bytecode.%s" % m, c, "removes"))
+                elif m in BC_INSPECT:
+                    findings.append(("violation", "bytecode.%s" % m, c, "inspects"))
+                else:
+                    findings.append(("undecided", "bytecode.%s" % m, c, "method %s on the bytecode vector is not classified" % m))
+            elif k == "call" and "bytecode::write_to_vec" in hir_callee(c) and len(c["args"]) > 1 and c["args"][1] is top:
+                counts["append"] += 1
+            elif k == "call" and any(n.endswith("mem::take") or n.endswith("mem::replace") or n.endswith("mem::swap") for n in hir_callee(c)):
+                findings.append(("violation", "bytecode.take", c, "removes"))
+            elif k == "index" and c["e"] is top:
+                t2, c2, _al = climb(c)
+                if c2 is not None and c2.get("k") in ("assign", "assign_op") and c2["l"] is t2:
+                    findings.append(("undecided", "bytecode.index-write", c, "the bytecode is written by index (not the as_mut_ptr patch that C10.J decides)"))
+                else:
+                    findings.append(("violation", "bytecode.index", c, "inspects"))
+            elif k == "assign" and c["l"] is top:
+                findings.append(("violation", "bytecode.replace", c, "removes"))
+            elif k in ("bin",) and c.get("op") in ("Eq", "Ne", "Lt", "Le", "Gt", "Ge"):
+                findings.append(("violation", "bytecode.compare", c, "inspects"))
+            else:
+                what = (hir_callee(c) or [c.get("name") or k or "?"])[0] if c is not None else "?"
+                findings.append(("undecided", "bytecode.handed-to-%s" % str(what).rsplit("::", 1)[-1], c if c is not None else x,
+                                 "the bytecode vector is handed to / used by `%s`, which this rule does not know" % what))
+        total_append += counts["append"]
+        if not findings:
+            res.append(ok("C10.A", "C10/A/%s/bytecode-append-only" % f.name, f.loc(),
+                          "%d append(s), %d length read(s), %d in-place patch(es); no removal, no read of the content" %
+                          (counts["append"], counts["measure"], counts["patch"])))
+            continue
+        seen_keys = {}
+        for status, what, node, why in findings:
+            n_ = seen_keys.get(what, 0)
+            seen_keys[what] = n_ + 1
+            key = "C10/A/%s/%s%s" % (f.name, what, "" if n_ == 0 else "#%d" % n_)
+            loc = f.loc(node.get("ln"))
+            if status == "undecided":
+                res.append(undecided("C10.A", key, loc, why))
+            elif why == "removes":
+                res.append(bad("C10.A", key, loc,
+                               "%s takes bytes away from the code emitted so far (%s): the compiler cannot know whether the bytes at the end are "
+                               "an opcode or the tail of an operand without decoding from the front, so for a preceding instruction with operands "
+                               "(ScalarInt, ScalarFloat, CallNative handle, jump target ...) an operand is cut and everything after it - labels, "
+                               "trace keys and jump targets were taken from bytecode.len() - no longer points at instruction starts; the "
+                               "output does not decode front to back" % (f.name, what)))
+            else:
+                res.append(bad("C10.A", key, loc,
+                               "%s decides on the value of raw bytes of the emitted code (%s): a byte at a given offset is an opcode or a piece of "
+                               "an operand, which cannot be told without decoding from the front - a test like `last byte == opcode X` also "
+                               "fires when the last instruction is e.g. ScalarInt / CallNative whose operand happens to end in that byte, and the "
+                               "compiler then treats operand bytes as an instruction" % (f.name, what)))
+    if total_append == 0:
+        raise AnchorMissing("appends to program.bytecode in the compiler module")
+    return res
+
+
 def _c06_rule_w(F):
     import rules.c06 as c06
     return c06.rule_w(F)
@@ -1136,6 +1651,7 @@ RULES = [
     Rule("C10.T", rule_t, 2, "every failing instruction has a trace entry; trace key is the opcode position"),
     Rule("C10.J", rule_j, 6, "jump operands are placeholders that get patched, or derive from bytecode.len()"),
     Rule("C10.E", rule_e, 2, "terminal Exit on every Ok path of Compiler::compile"),
+    Rule("C10.A", rule_a, 10, "the bytecode vector is append-only during compilation and never inspected as bytes"),
     Rule("C10.U", shared(_c06_rule_w, "C06.W", "C10.U"), 2, "upvalue operands index the closure's own upvalue list (shared with C06.W)"),
     Rule("C10.G", rule_g, 4, "global ids and names are registered from the same string and id"),
     Rule("C10.S", rule_s, 6, "data-section string encoding and handles"),
